@@ -19,6 +19,8 @@ CHECKS.update({
 })
 CHECKS['C07'] = dict(level='fault_enumeration', text='Fault enumeration on the real code: a fault-free run discovers every user-callback slot of the operator and its invocation count; then every (slot, invocation index, fault kind) is injected, one per execution, plus every notification index of the final observer and every position of the subscribe function; trace-shape oracle (prefix, exactly one matching Error, nothing after), no escaped or goroutine-top panic (the controlled runtime records what would have crashed the process), follow-up subscription usable.', note=COMMON_NOTE+' One fault per execution (no pairs of faults yet); invocation index capped at 3.', technique='exhaustive fault-position enumeration over operator x script x callback slot x invocation index x fault kind', ref='§5 C07')
 CHECKS['C10'] = dict(level='model_checking', text='Explicit-state search over all operation sequences up to a depth on the real subjects, each step compared with an executable sequential definition; plus exhaustive schedule exploration of 2-3 threads issuing operations from several initial states, with a brute-force linearizability check (two linearization points for Unsubscribe, two for async completion) against the same definition.', note='Depth 5/6, 2/3 observers, two values, buffer sizes 1, 2, unlimited; concurrent part: 1-2 operations per thread, deviation bound 2/3; read-only operations (CountObservers etc.) are compared in the sequential part only.', technique='explicit-state search over operation sequences on the implementation + stateless schedule exploration with linearizability oracle', ref='§5 C10')
+CHECKS['C05'] = dict(level='model_checking', text='Exhaustive enumeration of every interleaving of every tuple of bounded source scripts on one thread (each notification processed to quiescence) against an executable state-machine definition of each multi-source operator; then the same scripts on one thread per source under every schedule within the deviation bound, with a set-valued oracle: the outcome must be the definition\'s outcome for some interleaving.', note='2 sources (3 for the n-ary ones with shorter scripts), scripts <= 2/3 values, deviation bound 2/3; the concurrent oracle assumes each notification of a source is atomic with respect to the definition.', technique='exhaustive enumeration of arrival orders + stateless schedule exploration with a set-valued reference-model oracle', ref='§5 C05')
+CHECKS['C11'] = dict(level='model_checking', text='Explicit-state search over all event sequences (subscribe, unsubscribe, source notifications, connect, disconnect) up to a depth for every flag/connector combination of Share and connectable observables, compared step by step with a reference model (traces, live upstream subscriptions, total upstream subscriptions); plus exhaustive schedule exploration of concurrent subscribe/unsubscribe/connect/notify programs with invariants.', note='Depth 5/7, 2 subscribers, two values; the concurrent part checks invariants (at most one open upstream subscription, no panic/deadlock, grammar, order), not full linearizability.', technique='explicit-state search over event sequences on the implementation + stateless schedule exploration', ref='§5 C11')
 NA = {}
 ALL = ['C%02d' % i for i in range(1, 21)]
 m = {
